@@ -1,6 +1,6 @@
 (* FrameProofs.v -- codec lemmas behind C03 (and reused by C01, C04, C20). *)
 From Coq Require Import List NArith ZArith Lia Bool.
-From AnyTLS Require Import Bytes Cmd Generated GeneratedFacts Frame BytesFacts.
+From AnyTLS Require Import Bytes Cmd Generated FactsCore Frame BytesFacts.
 Import ListNotations.
 Open Scope N_scope.
 Ltac Zify.zify_post_hook ::= Z.to_euclidean_division_equations.
